@@ -256,6 +256,11 @@ def run_check(prop, tier, seed, jobs=None):
                 continue
             pred = it["predicted"]
             bad = {k: (pred[k], o["outputs"].get(k)) for k in pred if o["outputs"].get(k) != pred[k]}
+            hv = o.get("history_violation")
+            if hv and not it.get("nojudge") and not o.get("violated"):
+                # right in a fresh process, wrong after the same observation ran on other solver-chosen inputs in the same process
+                val_violations.append((dict(it, history=hv["history"]), {"outputs": hv["outputs"], "violated": True,
+                                       "msg": "[after %d other solver-chosen inputs were handled in the same process] %s" % (len(hv["history"]), hv["msg"])}))
             if o.get("violated") and not it.get("nojudge"):
                 # the real code, run on inputs chosen by the solver, violates the property according to the plain oracle:
                 # a genuine, already replayed violation (typically machine-integer behaviour that SX's unbounded integers do not show)
@@ -312,7 +317,7 @@ def run_check(prop, tier, seed, jobs=None):
     for it, o in val_violations[:3]:
         os.makedirs(rep_dir, exist_ok=True)
         path = os.path.join(rep_dir, "%s-validation-%d.json" % (it["spec"]["name"], len(violations)))
-        json.dump({"property": prop, "spec": it["spec"], "inputs": it["inputs"], "ob": "validation", "observed": o}, open(path, "w"), indent=1)
+        json.dump({"property": prop, "spec": it["spec"], "inputs": it["inputs"], "ob": "validation", "observed": o, "history": it.get("history")}, open(path, "w"), indent=1)
         violations.append((path, "[found when the real code was run on a solver-chosen input] " + o.get("msg", "")))
 
     # ---- open known findings: replay stored witnesses
@@ -429,7 +434,7 @@ def _z3v():
 
 def replay_file(prop, path):
     w = json.load(open(path))
-    o = plain_batch(prop, [{"spec": w["spec"], "inputs": w["inputs"], "ob": w.get("ob")}])[0]
+    o = plain_batch(prop, [{"spec": w["spec"], "inputs": w["inputs"], "ob": w.get("ob"), "history": w.get("history")}])[0]
     print(json.dumps(o, indent=1))
     if o.get("violated"):
         print("VIOLATION property=%s replay=%s" % (prop, path))
